@@ -223,3 +223,105 @@ def _engine_handover(h):
                        ("can_follow", "B", "A"), ("bind", "B"), ("lock", "B"), ("run", "B")], bounded_shape=True)
     h.ensure("run-history-appended-in-order", [p.name for p in eng.run_progs] == ["prev", "A", "B"], bounded_shape=True)
     h.ensure("samples-of-the-last-segment-kept", eng.samples == "SAMPLES-B" and eng.samples_dict == {"dict": "B"}, bounded_shape=True)
+
+
+# ---------------------------------------------------------------------------------------------
+# Every operation that a backend applies natively (every class of ops.py that defines `_apply`, found by introspection on
+# each run): applying it with SYMBOLIC parameters (a measured parameter that holds a value, an expression of it) uses the
+# current value and leaves the operation object exactly as it was - the parameter list still holds the symbolic
+# parameters, no attribute is rewritten - so that the next application sees the value the symbol has THEN (C10) and the
+# user's program is untouched (C09).  The backend is a recording stub.  Shape-bounded: one argument pattern per class.
+# ---------------------------------------------------------------------------------------------
+def _native_classes(ops):
+    import inspect
+    out = []
+    for name, cls in inspect.getmembers(ops, inspect.isclass):
+        if cls.__module__ == ops.__name__ and "_apply" in vars(cls) and not name.startswith("_"):
+            out.append(name)
+    return sorted(out)
+
+
+# constructor arguments: "S" = the symbolic parameter (an expression of a measured parameter), numbers as they are
+NATIVE_ARGS = {
+    "Vacuum": (), "Coherent": ("S", 0.2), "Squeezed": ("S", 0.1), "DisplacedSqueezed": ("S", 0.1, 0.2, 0.3), "Fock": (1,),
+    "Catstate": ("S", 0.2, 0), "Thermal": ("S",),
+    "MeasureFock": (), "MeasureThreshold": (), "MeasureHomodyne": ("S",), "MeasureHeterodyne": (),
+    "LossChannel": ("S",), "ThermalLossChannel": ("S", 0.3), "MSgate": ("S", 0.1, 1.0, 0.9, True),
+    "Dgate": ("S", 0.3), "Sgate": ("S", 0.3), "Vgate": ("S",), "Kgate": ("S",), "Rgate": ("S",),
+    "BSgate": ("S", 0.2), "MZgate": ("S", 0.2), "S2gate": ("S", 0.2), "CKgate": ("S",),
+}
+# classes whose parameters are arrays (no symbolic scalar to hand in): not covered by this contract
+NATIVE_SKIP = {"GKP", "Ket", "DensityMatrix", "PassiveChannel", "Ggate", "Gaussian", "Bosonic", "Operation"}
+# the value reaches the backend inside a state vector, not as a scalar argument: only the frame clause applies
+VALUE_IN_ARRAY = {"Catstate"}
+
+
+class AnyBackend:
+    """recording stub of the backend API: measurement calls return one outcome per mode"""
+    def __init__(self):
+        self.calls = []
+
+    def get_cutoff_dim(self):
+        return 4
+
+    def __getattr__(self, name):
+        if name.startswith("__"):
+            raise AttributeError(name)
+
+        def f(*a, **kw):
+            self.calls.append((name, a, kw))
+            if name.startswith("measure_"):
+                nm = len(a[0]) if name in ("measure_fock", "measure_threshold") else 1
+                return np.array([[0.25] * nm])
+            if name == "mb_squeeze_single_shot":
+                return 0.25
+            return None
+        return f
+
+
+def _flatnum(x):
+    try:
+        return complex(x)
+    except Exception:
+        return None
+
+
+@proof(["C10", "C09"], OPS + ":Operation.apply", name="Operation.apply/symbolic-parameters-used-by-value-and-left-symbolic")
+def _apply_symbolic_all(h):
+    ops, pu, par = h.module(OPS), h.module(PU), h.module(PAR)
+    names = _native_classes(ops)
+    h.ensure("every-natively-applied-class-has-an-argument-pattern", all(n in NATIVE_ARGS or n in NATIVE_SKIP for n in names), bounded_shape=True)
+    todo = [n for n in names if n in NATIVE_ARGS]
+    h.ensure("classes-found", len(todo) >= 20, bounded_shape=True)
+    name = todo[h.eng.choose(len(todo), "class")]
+    cls = getattr(ops, name)
+    src = pu.RegRef(5)
+    src.val = 0.5
+    sym = 0.5 * src.par + 0.1              # evaluates to 0.35 now
+    args = [sym if a == "S" else a for a in NATIVE_ARGS[name]]
+    op = cls(*args)
+    reg = [pu.RegRef(k) for k in range(op.ns if op.ns else 2)]
+    snap = {k: (v, list(v) if isinstance(v, list) else None) for k, v in vars(op).items()}
+    be = AnyBackend()
+    out = h.call(op.apply, reg, be)
+    h.ensure(f"{name}.no-exception", out.returned, bounded_shape=True)
+    if not out.returned:
+        return
+    uses_sym = "S" in NATIVE_ARGS[name] and name not in VALUE_IN_ARRAY
+    nums = [c for call in be.calls for c in [_flatnum(x) for x in call[1]] if c is not None]
+    if uses_sym:
+        h.ensure(f"{name}.backend-gets-the-current-value", any(abs(c - 0.35) < 1e-12 for c in nums), bounded_shape=True)
+    cur = vars(op)
+    same = set(cur) == set(snap) and all(cur[k] is v and (items is None or (len(v) == len(items) and all(a is b for a, b in zip(v, items))))
+                                          for k, (v, items) in snap.items())
+    h.ensure(f"{name}.operation-object-untouched", same, bounded_shape=True)
+    # the symbol changes its value (re-measurement, new binding): the next application must use the new value
+    src.val = -0.9                                  # sym now evaluates to -0.35
+    be2 = AnyBackend()
+    for r in reg:
+        r.val = None
+    out2 = h.call(op.apply, reg, be2)
+    if uses_sym:
+        nums2 = [c for call in be2.calls for c in [_flatnum(x) for x in call[1]] if c is not None]
+        h.ensure(f"{name}.second-application-uses-the-new-value", out2.returned and any(abs(c - (-0.35)) < 1e-12 for c in nums2)
+                 and not any(abs(c - 0.35) < 1e-12 for c in nums2), bounded_shape=True)
